@@ -24,6 +24,8 @@ pub struct Cluster {
     pub nodes: Vec<NodeProc>,
     pub work: PathBuf,
     pub env: BTreeMap<String, String>,
+    /// extra environment of single nodes (index -> vars), applied after `env`
+    pub node_env: BTreeMap<usize, BTreeMap<String, String>>,
     pub client: reqwest::blocking::Client,
 }
 
@@ -39,11 +41,13 @@ static NEXT_PORT: std::sync::Mutex<u16> = std::sync::Mutex::new(0);
 pub fn pick_ports(_salt: u64) -> Option<(u16, u16, u16)> {
     let mut cur = NEXT_PORT.lock().unwrap();
     if *cur == 0 {
-        *cur = 20_000 + ((std::process::id() % 38) as u16) * 1_000;
+        // below the kernel's ephemeral range (32768..60999): a port of a node that is down for a while must not
+        // be handed to an outgoing connection in the meantime
+        *cur = 10_000 + ((std::process::id() % 22) as u16) * 1_000;
     }
     for _ in 0..2000 {
         let base = *cur;
-        *cur = if base > 58_000 { 20_000 } else { base + 3 };
+        *cur = if base > 32_000 { 10_000 } else { base + 3 };
         if port_free(base) && port_free(base + 1) && port_free(base + 2) {
             return Some((base, base + 1, base + 2));
         }
@@ -104,6 +108,7 @@ impl Cluster {
             nodes,
             work: root,
             env,
+            node_env: BTreeMap::new(),
             client,
         })
     }
@@ -140,6 +145,11 @@ impl Cluster {
             .stderr(Stdio::from(log2));
         for (k, v) in &self.env {
             cmd.env(k, v);
+        }
+        if let Some(m) = self.node_env.get(&i) {
+            for (k, v) in m {
+                cmd.env(k, v);
+            }
         }
         let child = cmd.spawn().map_err(|e| format!("cannot start {}: {}", server_binary().display(), e))?;
         n.child = Some(child);
